@@ -39,15 +39,17 @@ Section Transparent.
     - rewrite E1, E2. exact I.
   Qed.
 
-  Lemma sim_step f a s1 s2 : simW s1 s2 ->
+  Definition not_spawn (a : action) : bool := match a with ASpawn _ => false | _ => true end.
+
+  Lemma sim_step f a s1 s2 : not_spawn a = true -> simW s1 s2 ->
     match rstep (S f) a s1, rstep f a s2 with
     | Some (o1, t1), Some (o2, t2) => o1 = o2 /\ simW t1 t2
     | None, None => True
     | _, _ => False
     end.
   Proof.
-    intros S0. pose proof S0 as (Ec & En & Ee & Ev & Er).
-    destruct a; unfold rstep.
+    intros NS S0. pose proof S0 as (Ec & En & Ee & Ev & Er).
+    destruct a; unfold rstep; try discriminate NS.
     - (* AEffects *)
       pose proof (sim_advance f s1 s2 S0) as A.
       destruct (radvance (S f) s1) as [a1|], (radvance f s2) as [a2|]; try contradiction; [|exact I].
@@ -84,12 +86,13 @@ Section Transparent.
     - split; [reflexivity|exact S0].
   Qed.
 
-  Theorem sim_trace : forall acts f s1 s2, simW s1 s2 -> rrun (S f) acts s1 = rrun f acts s2.
+  Theorem sim_trace : forall acts f s1 s2, forallb not_spawn acts = true -> simW s1 s2 -> rrun (S f) acts s1 = rrun f acts s2.
   Proof.
-    induction acts as [|a acts IH]; intros f s1 s2 S0; simpl; [reflexivity|].
-    pose proof (sim_step f a s1 s2 S0) as A.
+    induction acts as [|a acts IH]; intros f s1 s2 NS S0; simpl; [reflexivity|].
+    simpl in NS. apply andb_prop in NS as [NS1 NS2].
+    pose proof (sim_step f a s1 s2 NS1 S0) as A.
     destruct (rstep (S f) a s1) as [[o1 t1]|], (rstep f a s2) as [[o2 t2]|]; try contradiction; [|reflexivity].
-    destruct A as (-> & S1). rewrite (IH f t1 t2 S1). reflexivity.
+    destruct A as (-> & S1). rewrite (IH f t1 t2 NS2 S1). reflexivity.
   Qed.
 End Transparent.
 
@@ -135,37 +138,38 @@ Lemma init_sim (W : rc -> rc) r : simW W (mkRSt (W r) 0 [] [] []) (mkRSt r 0 [] 
 Proof. unfold simW; simpl. repeat split; reflexivity. Qed.
 
 (* all of one command is that command *)
-Theorem all_singleton : forall f c acts, ref_direct (S f) (CAll [c]) acts = ref_direct f c acts.
+Definition no_spawn (acts : list action) : bool := forallb not_spawn acts.
+Theorem all_singleton : forall f c acts, no_spawn acts = true -> ref_direct (S f) (CAll [c]) acts = ref_direct f c acts.
 Proof.
-  intros f c acts. unfold ref_direct. cbn [start map].
-  apply (sim_trace (fun r => RPar [r]) par1_done par1_deliver par1_drop par1_run). apply (init_sim (fun r => RPar [r]) (start [] c)).
+  intros f c acts NS. unfold ref_direct. cbn [start map].
+  apply (sim_trace (fun r => RPar [r]) par1_done par1_deliver par1_drop par1_run); [exact NS|]. apply (init_sim (fun r => RPar [r]) (start [] c)).
 Qed.
 (* mapping with the identity changes nothing *)
-Theorem map_effect_id : forall f c acts, ref_direct (S f) (CIdEff c) acts = ref_direct f c acts.
+Theorem map_effect_id : forall f c acts, no_spawn acts = true -> ref_direct (S f) (CIdEff c) acts = ref_direct f c acts.
 Proof.
-  intros f c acts. unfold ref_direct. cbn [start].
-  apply (sim_trace (RMapEff 0) (fun r => eq_refl) (mapeff_deliver 0) (fun rid r => eq_refl) mapeff0_run). apply (init_sim (RMapEff 0) (start [] c)).
+  intros f c acts NS. unfold ref_direct. cbn [start].
+  apply (sim_trace (RMapEff 0) (fun r => eq_refl) (mapeff_deliver 0) (fun rid r => eq_refl) mapeff0_run); [exact NS|]. apply (init_sim (RMapEff 0) (start [] c)).
 Qed.
-Theorem map_event_id : forall f c acts, ref_direct (S f) (CIdEv c) acts = ref_direct f c acts.
+Theorem map_event_id : forall f c acts, no_spawn acts = true -> ref_direct (S f) (CIdEv c) acts = ref_direct f c acts.
 Proof.
-  intros f c acts. unfold ref_direct. cbn [start].
-  apply (sim_trace (RMapEv 0) (fun r => eq_refl) (mapev_deliver 0) (fun rid r => eq_refl) mapev0_run). apply (init_sim (RMapEv 0) (start [] c)).
+  intros f c acts NS. unfold ref_direct. cbn [start].
+  apply (sim_trace (RMapEv 0) (fun r => eq_refl) (mapev_deliver 0) (fun rid r => eq_refl) mapev0_run); [exact NS|]. apply (init_sim (RMapEv 0) (start [] c)).
 Qed.
 (* Command::into / from with identity conversions changes nothing *)
-Theorem into_id : forall f c acts, ref_direct (S (S f)) (CInto c) acts = ref_direct f c acts.
+Theorem into_id : forall f c acts, no_spawn acts = true -> ref_direct (S (S f)) (CInto c) acts = ref_direct f c acts.
 Proof.
-  intros f c acts. unfold ref_direct. cbn [start].
+  intros f c acts NS. unfold ref_direct. cbn [start].
   rewrite (sim_trace (RMapEv 0) (fun r => eq_refl) (mapev_deliver 0) (fun rid r => eq_refl) mapev0_run acts (S f)
-             _ (mkRSt (RMapEff 0 (start [] c)) 0 [] [] [])) by apply (init_sim (RMapEv 0) (RMapEff 0 (start [] c))).
-  apply (sim_trace (RMapEff 0) (fun r => eq_refl) (mapeff_deliver 0) (fun rid r => eq_refl) mapeff0_run). apply (init_sim (RMapEff 0) (start [] c)).
+             _ (mkRSt (RMapEff 0 (start [] c)) 0 [] [] []) NS) by apply (init_sim (RMapEv 0) (RMapEff 0 (start [] c))).
+  apply (sim_trace (RMapEff 0) (fun r => eq_refl) (mapeff_deliver 0) (fun rid r => eq_refl) mapeff0_run); [exact NS|]. apply (init_sim (RMapEff 0) (start [] c)).
 Qed.
 (* nesting such wrappers to any depth changes nothing *)
 Fixpoint wrapn (k : nat) (c : cmd) : cmd := match k with 0 => c | S k' => CAll [CIdEv (CIdEff (wrapn k' c))] end.
-Theorem nesting_invariant : forall k f c acts, ref_direct (3 * k + f) (wrapn k c) acts = ref_direct f c acts.
+Theorem nesting_invariant : forall k f c acts, no_spawn acts = true -> ref_direct (3 * k + f) (wrapn k c) acts = ref_direct f c acts.
 Proof.
-  induction k as [|k IH]; intros f c acts; [reflexivity|].
+  induction k as [|k IH]; intros f c acts NS; [reflexivity|].
   replace (3 * S k + f) with (S (S (S (3 * k + f)))) by (simpl; rewrite <- !plus_n_Sm, Nat.add_0_r; reflexivity).
-  cbn [wrapn]. rewrite all_singleton, map_event_id, map_effect_id. apply IH.
+  cbn [wrapn]. rewrite all_singleton, map_event_id, map_effect_id by exact NS. apply IH. exact NS.
 Qed.
 
 (* then: the second part starts exactly when the first has nothing left - with done as the first part
